@@ -102,7 +102,7 @@ def main(argv):
         return w
 
     order = sorted(range(len(obs)), key=lambda i: -_weight(obs[i]))
-    budget = float(getattr(mod, "HARD_BUDGET_S", {}).get(tier, 1500 if tier == "thorough" else 420))
+    budget = float(getattr(mod, "HARD_BUDGET_S", {}).get(tier, 3600 if tier == "thorough" else 420))
     results = {}
     ctx = mp.get_context("fork")
     pool = ctx.Pool(NPROC, maxtasksperchild=1)
